@@ -1,7 +1,7 @@
 (* The case language interpreter: one case (an s-expression) in, one canonical result line out.
    The same function is evaluated in-kernel (vm_compute) and extracted to OCaml. *)
 From Coq Require Import Strings.String.
-From Iso Require Import Model.Base Model.Sexp Model.Padding Model.Encoding.
+From Iso Require Import Model.Base Model.Sexp Model.Padding Model.Encoding Model.Prefix.
 
 Definition S' (s : string) : bytes := list_byte_of_string s.
 
@@ -79,6 +79,59 @@ Definition run_enc_dec (args : list sexp) : bytes :=
   | _ => bad
   end.
 
+(* prefixer names as the library prints them: ASCII.LL, Hex.Fixed, BerTLV, None.Fixed *)
+Fixpoint split_dot (l : bytes) (cur : bytes) : bytes * bytes :=
+  match l with
+  | [] => (frev cur, [])
+  | b :: r => if Byte.eqb b x2e then (frev cur, r) else split_dot r (b :: cur)
+  end.
+
+Definition parse_family (a : bytes) : option pfamily :=
+  if bytes_eqb a (S' "ASCII") then Some PfASCII
+  else if bytes_eqb a (S' "BCD") then Some PfBCD
+  else if bytes_eqb a (S' "Binary") then Some PfBinary
+  else if bytes_eqb a (S' "Hex") then Some PfHex
+  else if bytes_eqb a (S' "EBCDIC") then Some PfEBCDIC
+  else if bytes_eqb a (S' "EBCDIC1047") then Some PfEBCDIC1047
+  else None.
+
+Definition parse_prefixer_name (a : bytes) : option prefixer :=
+  if bytes_eqb a (S' "BerTLV") then Some PBerTLV
+  else if bytes_eqb a (S' "None.Fixed") then Some PNone
+  else
+    let '(fam, w) := split_dot a [] in
+    match parse_family fam with
+    | None => None
+    | Some f =>
+        if bytes_eqb w (S' "Fixed") then Some (PFixed f)
+        else if forallb (Byte.eqb x4c) w && negb (Nat.eqb (length w) 0) then Some (PVar f (length w))
+        else None
+    end.
+
+Definition parse_prefixer (s : sexp) : option prefixer :=
+  match s with Atom a => parse_prefixer_name a | _ => None end.
+
+Definition run_pref_enc (args : list sexp) : bytes :=
+  match args with
+  | [p; mx; n] =>
+      match parse_prefixer p, as_int mx, as_int n with
+      | Some p, Some mx, Some n => show_outcome show_hex (enc_len p mx n)
+      | _, _, _ => bad
+      end
+  | _ => bad
+  end.
+
+Definition run_pref_dec (args : list sexp) : bytes :=
+  match args with
+  | [p; mx; d] =>
+      match parse_prefixer p, as_int mx, as_hex d with
+      | Some p, Some mx, Some d =>
+          show_outcome (fun '(n, r) => show_int n ++ sp ++ show_int r) (dec_len p mx d)
+      | _, _, _ => bad
+      end
+  | _ => bad
+  end.
+
 Definition dispatch (s : sexp) : bytes :=
   match s with
   | SList (Atom name :: args) =>
@@ -86,6 +139,8 @@ Definition dispatch (s : sexp) : bytes :=
       else if bytes_eqb name (S' "unpad") then run_unpad args
       else if bytes_eqb name (S' "enc.enc") then run_enc_enc args
       else if bytes_eqb name (S' "enc.dec") then run_enc_dec args
+      else if bytes_eqb name (S' "pref.enc") then run_pref_enc args
+      else if bytes_eqb name (S' "pref.dec") then run_pref_dec args
       else bad
   | _ => bad
   end.
